@@ -787,20 +787,32 @@ package channel
 
 //@ pred freshBals(s []Bal) = forall k int :: 0 <= k && k < len(s) ==> s[k] != nil && fresh(s[k])
 
+// bsum(s): the total of a balance vector (a real finite sum; the solver gets one-step unfoldings and the congruence lemma).
+//@ pred distinctBals(s []Bal) = forall j, k int :: 0 <= j && j < k && k < len(s) ==> s[j] != s[k]
+//@ pred bsum(s []Bal) = sumof k int :: len(s) :: val(s[k])
+//@ pred bsumN(s []Bal, n int) = sumof k int :: n :: val(s[k])
+
 //@ func (Balances).Sum
 //@   requires nonNilBalances(b)
 //@   ensures len(result) == len(b) && fresh(arr(result)) && off(result) == 0 && freshBals(result)
+//@   ensures forall i int :: 0 <= i && i < len(b) ==> val(result[i]) == bsum(b[i])
 //@   trustedensures forall i int :: 0 <= i && i < len(b) ==> val(result[i]) == balSum(b[i])
 //@   loop 1
 //@     modifies totals[*]
 //@     invariant len(totals) == n && n == len(b) && fresh(arr(totals)) && off(totals) == 0
-//@     invariant forall k int :: 0 <= k && k < $i ==> totals[k] != nil && fresh(totals[k])
+//@     invariant forall k int :: 0 <= k && k < $i ==> totals[k] != nil && fresh(totals[k]) && val(totals[k]) == 0
+//@     invariant forall j, k int :: 0 <= j && j < k && k < $i ==> totals[j] != totals[k]
 //@   loop 2
 //@     modifies fresh
-//@     invariant len(totals) == len(b) && fresh(arr(totals)) && off(totals) == 0 && freshBals(totals)
+//@     invariant len(totals) == len(b) && fresh(arr(totals)) && off(totals) == 0 && freshBals(totals) && distinctBals(totals)
+//@     invariant forall k int :: 0 <= k && k < $i ==> val(totals[k]) == bsum(b[k])
+//@     invariant forall k int :: $i <= k && k < len(totals) ==> val(totals[k]) == 0
 //@   loop 3
 //@     modifies fresh
-//@     invariant 0 <= i && i < len(b) && asset == b[i] && len(totals) == len(b) && fresh(arr(totals)) && off(totals) == 0 && freshBals(totals)
+//@     invariant 0 <= i && i < len(b) && asset == b[i] && len(totals) == len(b) && fresh(arr(totals)) && off(totals) == 0 && freshBals(totals) && distinctBals(totals)
+//@     invariant val(totals[i]) == bsumN(asset, $i)
+//@     invariant forall k int :: 0 <= k && k < i ==> val(totals[k]) == bsum(b[k])
+//@     invariant forall k int :: i < k && k < len(totals) ==> val(totals[k]) == 0
 
 //@ func (Allocation).Sum
 //@   requires nonNilBalances(a.Balances) && nonNilLocked(a.Locked) && forall l int :: 0 <= l && l < len(a.Locked) ==> len(a.Locked[l].Bals) <= len(a.Balances)
